@@ -1763,6 +1763,7 @@ def expand_macro(unit, it, src, rel):
         out.append('    pub fn bits(&self) -> (r: %s) ensures r == self.bits { self.bits }' % ty)
         out.append('    pub fn empty() -> (r: Self) ensures r.bits == 0 { %s { bits: 0 } }' % sname)
         out.append('    pub fn contains(&self, other: Self) -> (r: bool) ensures r == fl_has(self.bits, other.bits) { self.bits & other.bits == other.bits }')
+        out.append('    pub fn intersects(&self, other: Self) -> (r: bool) ensures r == (self.bits & other.bits != 0) { self.bits & other.bits != 0 }')
         out.append('    pub fn insert(&mut self, other: Self)')
         out.append('        ensures final(self).bits == old(self).bits | other.bits, fl_has(final(self).bits, other.bits),')
         out.append('            forall|m: %s| #![trigger fl_has(final(self).bits, m)] (m & other.bits == 0) ==> (fl_has(final(self).bits, m) == fl_has(old(self).bits, m)),' % ty)
@@ -1802,6 +1803,15 @@ def expand_macro(unit, it, src, rel):
         out.append('    open spec fn obeys_bitand_spec() -> bool { true }')
         out.append('    open spec fn bitand_req(self, other: %s) -> bool { true }' % sname)
         out.append('    open spec fn bitand_spec(self, other: %s) -> %s { %s { bits: self.bits & other.bits } }' % (sname, sname, sname))
+        out.append('}')
+        out.append('impl core::ops::BitOr for %s {' % sname)
+        out.append('    type Output = %s;' % sname)
+        out.append('    fn bitor(self, other: Self) -> (r: Self) { %s { bits: self.bits | other.bits } }' % sname)
+        out.append('}')
+        out.append('impl vstd::std_specs::ops::BitOrSpecImpl<%s> for %s {' % (sname, sname))
+        out.append('    open spec fn obeys_bitor_spec() -> bool { true }')
+        out.append('    open spec fn bitor_req(self, other: %s) -> bool { true }' % sname)
+        out.append('    open spec fn bitor_spec(self, other: %s) -> %s { %s { bits: self.bits | other.bits } }' % (sname, sname, sname))
         out.append('}')
         # pairwise disjointness facts (literals only), each discharged by bit_vector
         facts = []
@@ -2010,7 +2020,7 @@ def emit_block(unit, loc, dlines, tmpl_where):
         # renamed locals: the anchor with its local-variable-like identifiers as wildcards
         ma, mp_ = _find_anchor_fuzzy(body, bmask, a_txt, 0)
         blk_renames.update(mp_)
-    if b_txt not in ('$', '{*}', '{}'):
+    if b_txt not in ('$', '{*}', '{}') and not b_txt.startswith('{<'):
         rxb_ = re.compile(r'\s*'.join(re.escape(t) for t in b_txt.split()))
         if not any(bmask[m_.start()] and m_.start() >= ma.end() for m_ in rxb_.finditer(body)):
             try:
@@ -2046,6 +2056,23 @@ def emit_block(unit, loc, dlines, tmpl_where):
             cb_ = _if_chain_end(body, bmask, ma.start()) - 1
         mb = _Span0(cb_ + 1)
         blk = body[ma.start():cb_ + 1]
+    elif b_txt.startswith('{<'):
+        # inside the brace group the start anchor opens, up to (not including) the statement that starts with the given text
+        if body[ma.end() - 1] != '{':
+            raise Unsupported('%s: `{< ..` needs a start anchor that ends with an opening brace' % tmpl_where)
+        cb_ = match_brace(body, bmask, ma.end() - 1)
+        inner_txt = b_txt[2:].strip()
+        rxb2 = re.compile(r'\s*'.join(re.escape(t) for t in inner_txt.split()))
+        hit2 = next((m for m in rxb2.finditer(body) if bmask[m.start()] and ma.end() <= m.start() < cb_), None)
+        if hit2 is None:
+            try:
+                mf_, mp_ = _find_anchor_fuzzy(body[ma.end():cb_], bmask[ma.end():cb_], inner_txt, 1)
+                hit2 = _Span(ma.end() + mf_.start(), ma.end() + mf_.end())
+            except AnchorLost:
+                raise AnchorLost('block end anchor not found inside the group: `%s`' % inner_txt)
+        mb = _Span(hit2.start(), hit2.start())
+        ma = _Span(ma.end(), ma.end())
+        blk = body[ma.start():hit2.start()]
     elif b_txt == '{}':
         # the range is everything inside the brace group that the start anchor opens (a match arm, an if body)
         if body[ma.end() - 1] != '{':
